@@ -60,6 +60,39 @@ fn equivalent(q: &Query, table: &Table, a: &QOut, b: &QOut) -> Result<(), String
     }
 }
 
+/// One database per (table, layout): consecutive cases of a suite share their table and layout, so the
+/// instance built for one case is kept for the next (a panic / hang taints and discards it). A replay
+/// simply starts with an empty cache.
+static DB_CACHE: std::sync::Mutex<Vec<(u64, Option<Db>)>> = std::sync::Mutex::new(Vec::new());
+
+fn cache_key(table: &Sx, layout: &Sx) -> u64 {
+    use std::hash::{Hash, Hasher};
+    let mut h = std::collections::hash_map::DefaultHasher::new();
+    table.to_string().hash(&mut h);
+    layout.to_string().hash(&mut h);
+    h.finish()
+}
+
+fn take_cached(key: u64) -> Option<Db> {
+    let mut c = DB_CACHE.lock().unwrap();
+    match c.iter().position(|(k, _)| *k == key) {
+        Some(i) => c.remove(i).1,
+        None => None,
+    }
+}
+
+fn put_cached(key: u64, db: Option<Db>) {
+    let mut c = DB_CACHE.lock().unwrap();
+    if let Some(db) = db {
+        if !db.tainted {
+            c.push((key, Some(db)));
+        }
+    }
+    while c.len() > 2 {
+        c.remove(0);
+    }
+}
+
 impl Suite for ApiSuite {
     fn name(&self) -> &'static str {
         self.name
@@ -77,13 +110,17 @@ impl Suite for ApiSuite {
             "case" => {
                 let layout = Layout::from_sx(&it[2]);
                 let qs: Vec<Query> = it[3].items().iter().map(Query::from_sx).collect();
-                let mut cache: Option<Db> = None;
-                qs.iter()
+                let key = cache_key(&it[1], &it[2]);
+                let mut cache: Option<Db> = take_cached(key);
+                let outs = qs
+                    .iter()
                     .map(|q| {
                         let j = run_and_judge(&table, &layout, q, &mut cache);
                         outcome_attributed(&table, &layout, q, &j, &mut cache, "")
                     })
-                    .collect()
+                    .collect();
+                put_cached(key, cache);
+                outs
             }
             "pair" => {
                 let l1 = Layout::from_sx(&it[2]);
